@@ -11,6 +11,7 @@ CONSTANTS
   MaxPrints = 2
   MaxAuth = 0
 VIEW view
+CONSTRAINT Canon
 INVARIANTS TypeOK
 PROPERTIES PrintKeepsGauges
 CHECK_DEADLOCK FALSE
